@@ -1,8 +1,9 @@
 (* Pat/ResetProofs2.v — C04, the classes Pat/ResetProofs.v left open.
    Extended fragment [xpat s] (s = false: the fragment of the main theorem; s = true: the hereditarily strict part, what
    PReset may restart) containing ResetProofs.rpat:
-     - every class of rpat, now also with tuple- / list- / dict-valued parameters that hold no pattern a next() could advance
-       ([frozen]; see [tuple_pattern_not_rewound] for why a pattern inside a tuple is excluded: reset() does not reach it);
+     - every class of rpat, now also with tuple-valued parameters holding patterns to any depth (Pattern.value resolves them,
+       and since the repair C04-reset-tuples Pattern.reset rewinds them) and list- / dict-valued parameters (returned by
+       Pattern.value as they are: next() never advances what they hold);
      - PSequence with pattern items, PConcatenate, PRound (pattern arguments, keyword arguments), PIndexOf, PArrayIndex (over a
        pattern, a value, or a literal list with pattern items), PDict, PDictKey;
      - PReset over ANY pattern of the strict fragment, nested to any depth.
@@ -11,7 +12,7 @@
                                (B) reset f' p = Yield q -> reset f0 q = reset f0 p   for xpat true p  (reset . reset = reset, across fuels)
    (A) and (B) are proved jointly by induction on the depth f0 of the outer reset; closure by strong induction on the fuel.
    Lemmas only; the model is Pat/Step.v. *)
-From Isobar Require Import Base.Prelude Pat.Val Pat.Syntax Pat.Step Pat.StepProofs Pat.IterProofs Pat.ResetProofs Pat.StickyProofs.
+From Isobar Require Import Base.Prelude Pat.Val Pat.Syntax Pat.Step Pat.ArgInd Pat.StepProofs Pat.IterProofs Pat.ResetProofs Pat.StickyProofs.
 From Coq Require Import String QArith Wf_nat.
 Open Scope Z_scope.
 
@@ -112,57 +113,18 @@ Section Reset2.
   Notation aall := (aall binop LMAX).
   Notation fld f a k := (obind (reset_field (reset f) a) k).
 
-  (** * Parameters that next() never changes: plain values, lists and dicts (Pattern.value returns them as they are),
-        tuples of such *)
-  Inductive frozen : arg -> Prop :=
-  | F_val v : frozen (AV v)
-  | F_tup l : Forall frozen l -> frozen (AT l)
-  | F_list l : frozen (AL l)
-  | F_dict kv : frozen (AD kv).
-
-  Lemma frozen_value : forall f a, frozen a -> snd (value f a) = a.
-  Proof.
-    induction f as [|f IH]; intros a Ha; [reflexivity|]. destruct Ha as [v|l Hl|l|kv]; try reflexivity.
-    cbn [Step.value]. assert (E : snd (values_of (value f) l) = l).
-    { apply values_of_same. eapply Forall_impl; [|exact Hl]. intros a Ha. apply IH. exact Ha. }
-    destruct (values_of (value f) l) as [os l']. cbn [snd] in *. subst l'. reflexivity.
-  Qed.
-
-  Lemma frozen_anext f a : frozen a -> snd (anext f a) = a.
-  Proof. intro Ha. destruct f; [reflexivity|]. destruct Ha; reflexivity. Qed.
-
-  Lemma frozen_not_pattern a p : frozen a -> a <> AP p.
-  Proof. intros H E. subst. inversion H. Qed.
-
-  (** ... and that reset() does not change either: no Pattern among the items of a list / the values of a dict *)
-  Definition notpat (a : arg) : bool := match a with AP _ => false | _ => true end.
-  Definition resetfree (a : arg) : Prop :=
-    match a with
-    | AL l => forallb notpat l = true
-    | AD kv => forallb (fun ka => notpat (snd ka)) kv = true
-    | _ => True
-    end.
-
-  Lemma mapM_notpat (rp : pat -> outcome pat) l : forallb notpat l = true -> mapM (reset_item rp) l = Yield l.
-  Proof.
-    induction l as [|a r IH]; intro H; [reflexivity|]. cbn in H. apply andb_true_iff in H as [Ha Hr].
-    cbn. destruct a; try discriminate Ha; cbn; rewrite (IH Hr); reflexivity.
-  Qed.
-  Lemma kwmapM_notpat (rp : pat -> outcome pat) kv : forallb (fun ka => notpat (snd ka)) kv = true -> kwmapM (reset_item rp) kv = Yield kv.
-  Proof.
-    unfold kwmapM. induction kv as [|[k a] r IH]; intro H; [reflexivity|]. cbn in H. apply andb_true_iff in H as [Ha Hr].
-    cbn. destruct a; try discriminate Ha; cbn; rewrite (IH Hr); reflexivity.
-  Qed.
-
-  Lemma still_reset_field (rp : pat -> outcome pat) a : frozen a -> resetfree a -> reset_field rp a = Yield a.
-  Proof.
-    intros Fa Ra. destruct Fa; cbn in *; try reflexivity.
-    - rewrite mapM_notpat by exact Ra. reflexivity.
-    - rewrite kwmapM_notpat by exact Ra. reflexivity.
-  Qed.
-
-  Lemma frozen_reset_item (rp : pat -> outcome pat) a : frozen a -> reset_item rp a = Yield a.
-  Proof. destruct 1; reflexivity. Qed.
+  (** * What Pattern.value / next() do to an attribute that is not a pattern: lists and dicts are returned as they are,
+        a tuple has its elements resolved, next() of a non-pattern raises TypeError *)
+  Lemma value_AV f v : snd (value f (AV v)) = AV v.
+  Proof. destruct f; reflexivity. Qed.
+  Lemma value_AL f l : snd (value f (AL l)) = AL l.
+  Proof. destruct f; reflexivity. Qed.
+  Lemma value_AD f kv : snd (value f (AD kv)) = AD kv.
+  Proof. destruct f; reflexivity. Qed.
+  Lemma value_AT f l : snd (value (S f) (AT l)) = AT (snd (values_of (value f) l)).
+  Proof. cbn [Step.value]. destruct (values_of (value f) l) as [os l']. reflexivity. Qed.
+  Lemma anext_nonpat f a : (forall p, a <> AP p) -> snd (anext f a) = a.
+  Proof. intro H. destruct f; [reflexivity|]. destruct a; try reflexivity. exfalso. eapply H; reflexivity. Qed.
 
   (** * The extended fragment *)
   Inductive xpat : bool -> pat -> Prop :=
@@ -198,16 +160,23 @@ Section Reset2.
   | XP_map s input op args kwargs : xarg s input -> Forall (xarg s) args -> Forall (fun ka => xarg s (snd ka)) kwargs ->
       xpat s (PMap input op args kwargs)
   | XP_indexof s a b : xarg s a -> xarg s b -> xpat s (PIndexOf a b)
-  | XP_arrayindex_list s l b : Forall (xarg s) l -> xarg s b -> xpat s (PArrayIndex (AL l) b)
-  | XP_arrayindex s a b : (forall l, a <> AL l) -> xarg s a -> xarg s b -> xpat s (PArrayIndex a b)
+  | XP_arrayindex_list s l b e : Forall (xarg s) l -> xarg s b -> xpat s (PArrayIndex (AL l) b e)
+  | XP_arrayindex s a b e : (forall l, a <> AL l) -> xarg s a -> xarg s b -> xpat s (PArrayIndex a b e)
   | XP_dict s kv : Forall (fun ka => xarg s (snd ka)) kv -> xpat s (PDict (AD kv))
   | XP_dictkey s a b : xarg s a -> xarg s b -> xpat s (PDictKey a b)
   with xarg : bool -> arg -> Prop :=
-  | XA_still s a : frozen a -> (s = true -> resetfree a) -> xarg s a
-  | XA_pat s p : xpat s p -> xarg s (AP p).
+  | XA_val s v : xarg s (AV v)
+  | XA_pat s p : xpat s p -> xarg s (AP p)
+  (* a tuple: Pattern.value resolves its elements, Pattern.reset (repaired) rewinds them *)
+  | XA_tup s l : Forall (xarg s) l -> xarg s (AT l)
+  (* a list / dict where a value is expected: next() does not touch it; reset() rewinds what it holds (strict part: of the fragment) *)
+  | XA_list s l : (s = true -> Forall (xarg true) l) -> xarg s (AL l)
+  | XA_dict s kv : (s = true -> Forall (fun ka => xarg true (snd ka)) kv) -> xarg s (AD kv).
 
   Lemma xarg_val s v : xarg s (AV v).
-  Proof. apply XA_still; [constructor|intros _; exact I]. Qed.
+  Proof. apply XA_val. Qed.
+  Lemma xarg_AP s p : xarg s (AP p) -> xpat s p.
+  Proof. intro H. inversion H; subst. assumption. Qed.
 
   (** ** unfolding equations of the new classes *)
   Lemma step_seq_eq f l repeats rcount pos :
@@ -237,83 +206,6 @@ Section Reset2.
        | _ => (orep, PSequence (AL l) repeats' rcount pos)
        end).
   Proof. reflexivity. Qed.
-
-  Lemma step_arrayindex_list_eq f l index :
-    step (S f) (PArrayIndex (AL l) index) =
-      (let '(oi, index') := value f index in
-       match oi with
-       | Yield VNone => (Yield VNone, PArrayIndex (AL l) index')
-       | Yield vi =>
-           match py_int vi with
-           | Yield (VInt i) =>
-               match py_index l i with
-               | None => (Raise IndexError, PArrayIndex (AL l) index')
-               | Some a =>
-                   let '(o, a') := value f a in
-                   (o, PArrayIndex (AL (update_nth (py_index_pos l i) a' l)) index')
-               end
-           | Yield _ => (Inexact, PArrayIndex (AL l) index')
-           | o => (o, PArrayIndex (AL l) index')
-           end
-       | _ => (oi, PArrayIndex (AL l) index')
-       end).
-  Proof. reflexivity. Qed.
-
-  Lemma step_arrayindex_gen f a b : (forall l, a <> AL l) ->
-    exists g, step (S f) (PArrayIndex a b) =
-      (let '(oa, a') := value f a in
-       match oa with
-       | Yield va => let '(ob, b') := value f b in (g va ob, PArrayIndex a' b')
-       | _ => (oa, PArrayIndex a' b)
-       end).
-  Proof.
-    intro Hn.
-    exists (fun vl oi => match oi with
-                  | Yield VNone => Yield VNone
-                  | Yield vi =>
-                      match py_int vi with
-                      | Yield (VInt i) =>
-                          match vl with
-                          | VList l | VTup l => match py_index l i with None => Raise IndexError | Some v => Yield v end
-                          | VStr _ | VDict _ => Inexact
-                          | _ => Raise TypeError
-                          end
-                      | Yield _ => Inexact
-                      | o => o
-                      end
-                  | _ => oi
-                  end).
-    assert (E : step (S f) (PArrayIndex a b) =
-      (let '(ol, list') := value f a in
-              match ol with
-              | Yield vl =>
-                  let '(oi, index') := value f b in
-                  match oi with
-                  | Yield VNone => (Yield VNone, PArrayIndex list' index')
-                  | Yield vi =>
-                      match py_int vi with
-                      | Yield (VInt i) =>
-                          match vl with
-                          | VList l | VTup l =>
-                              match py_index l i with
-                              | None => (Raise IndexError, PArrayIndex list' index')
-                              | Some v => (Yield v, PArrayIndex list' index')
-                              end
-                          | VStr _ | VDict _ => (Inexact, PArrayIndex list' index')
-                          | _ => (Raise TypeError, PArrayIndex list' index')
-                          end
-                      | Yield _ => (Inexact, PArrayIndex list' index')
-                      | o => (o, PArrayIndex list' index')
-                      end
-                  | _ => (oi, PArrayIndex list' index')
-                  end
-              | _ => (ol, PArrayIndex list' b)
-              end)) by (destruct a; try reflexivity; exfalso; eapply Hn; reflexivity).
-    rewrite E. clear E. destruct (value f a) as [oa a']. destruct oa; try reflexivity.
-    destruct (value f b) as [ob b']. destruct ob as [vb| | | |]; try reflexivity.
-    destruct vb; try reflexivity;
-      repeat match goal with |- context [match ?x with _ => _ end] => destruct x end; reflexivity.
-  Qed.
 
   Lemma step_dict_eq f kv :
     step (S f) (PDict (AD kv)) = (let '(o, kv') := kwvalues_of (value f) kv in (omap VDict o, PDict (AD kv'))).
@@ -347,14 +239,15 @@ Section Reset2.
   Lemma reset_map_eq f input op args kwargs :
     reset (S f) (PMap input op args kwargs) =
       fld f input (fun i' =>
-        obind (kwmapM (reset_item (reset f)) kwargs) (fun kw1 =>
-        obind (mapM (reset_item (reset f)) args) (fun args' =>
+        obind (mapM (reset_value (reset f)) args) (fun args1 =>
+        obind (kwmapM (reset_value (reset f)) kwargs) (fun kw1 =>
+        obind (mapM (reset_item (reset f)) args1) (fun args2 =>
         obind (kwmapM (reset_item (reset f)) kw1) (fun kw2 =>
-        Yield (PMap i' op args' kw2))))).
+        Yield (PMap i' op args2 kw2)))))).
   Proof. reflexivity. Qed.
   Lemma reset_indexof_eq f a b : reset (S f) (PIndexOf a b) = fld f a (fun a' => fld f b (fun b' => Yield (PIndexOf a' b'))).
   Proof. reflexivity. Qed.
-  Lemma reset_arrayindex_eq f a b : reset (S f) (PArrayIndex a b) = fld f a (fun a' => fld f b (fun b' => Yield (PArrayIndex a' b'))).
+  Lemma reset_arrayindex_eq f a b e : reset (S f) (PArrayIndex a b e) = fld f a (fun a' => fld f b (fun b' => Yield (PArrayIndex a' b' false))).
   Proof. reflexivity. Qed.
   Lemma reset_dict_eq f d : reset (S f) (PDict d) = fld f d (fun d' => Yield (PDict d')).
   Proof. reflexivity. Qed.
@@ -416,23 +309,42 @@ Section Reset2.
     Variable g : nat.
     Hypothesis IHr : forall p q, xpat true p -> reset g p = Yield q -> xpat true q.
 
+    (* reset_value: what Pattern.reset does to an attribute, a list item, a dict value *)
+    Lemma value_closed : forall a x, xarg true a -> reset_value (reset g) a = Yield x -> xarg true x.
+    Proof.
+      apply (arg_tuple_ind (fun a => forall x, xarg true a -> reset_value (reset g) a = Yield x -> xarg true x)).
+      - intros v x Ha E. inversion E; subst. exact Ha.
+      - intros p x Ha E. cbn in E. apply omap_yield_inv in E as [q [Eq ->]]. apply XA_pat. eapply IHr; [apply xarg_AP; exact Ha|exact Eq].
+      - intros l x Ha E. inversion E; subst. exact Ha.
+      - intros kv x Ha E. inversion E; subst. exact Ha.
+      - intros l IH x Ha E. rewrite reset_value_AT in E. apply omap_yield_inv in E as [l' [El ->]]. apply XA_tup.
+        inversion Ha as [| |? ? Hl| |]; subst. clear Ha. revert l' El.
+        induction l as [|a r IHl]; intros l' El; cbn in El.
+        + inversion El. constructor.
+        + inversion IH as [|? ? Pa Pr]; subst. inversion Hl as [|? ? Xa Xr]; subst.
+          apply obind_yield_inv in El as [b [Eb El]]. apply omap_yield_inv in El as [r' [Er ->]].
+          constructor; [eapply Pa; eauto|eapply IHl; eauto].
+    Qed.
+
+    (* the one-level loop of PMap.reset *)
     Lemma item_closed a x : xarg true a -> reset_item (reset g) a = Yield x -> xarg true x.
     Proof.
-      intros Ha E. inversion Ha as [s0 a0 Fa Ra|s0 p Hp]; subst.
-      - rewrite frozen_reset_item in E by exact Fa. inversion E; subst. exact Ha.
-      - cbn in E. apply omap_yield_inv in E as [q [Eq ->]]. apply XA_pat. eapply IHr; eauto.
+      intros Ha E. destruct a; try (inversion E; subst; exact Ha).
+      cbn in E. apply omap_yield_inv in E as [q [Eq ->]]. apply XA_pat. eapply IHr; [apply xarg_AP; exact Ha|exact Eq].
     Qed.
 
-    Lemma field_closed a x : xarg true a -> reset_field (reset g) a = Yield x -> xarg true x.
-    Proof.
-      intros Ha E. inversion Ha as [s0 a0 Fa Ra|s0 p Hp]; subst.
-      - rewrite still_reset_field in E by (auto). inversion E; subst. exact Ha.
-      - cbn in E. apply omap_yield_inv in E as [q [Eq ->]]. apply XA_pat. eapply IHr; eauto.
-    Qed.
-
+    Lemma values_closed l l' : Forall (xarg true) l -> mapM (reset_value (reset g)) l = Yield l' -> Forall (xarg true) l'.
+    Proof. apply mapM_Forall. intros a b. apply value_closed. Qed.
     Lemma items_closed l l' : Forall (xarg true) l -> mapM (reset_item (reset g)) l = Yield l' -> Forall (xarg true) l'.
     Proof. apply mapM_Forall. intros a b. apply item_closed. Qed.
 
+    Lemma kwvalues_closed l l' : Forall (fun ka => xarg true (snd ka)) l -> kwmapM (reset_value (reset g)) l = Yield l' ->
+      Forall (fun ka : string * arg => xarg true (snd ka)) l'.
+    Proof.
+      unfold kwmapM. apply (mapM_Forall (fun ka : string * arg => xarg true (snd ka))).
+      intros [k a] [k' b] Ha E. cbn [fst snd] in *. apply omap_yield_inv in E as [x [Ex E]]. inversion E; subst.
+      eapply value_closed; eauto.
+    Qed.
     Lemma kwitems_closed l l' : Forall (fun ka => xarg true (snd ka)) l -> kwmapM (reset_item (reset g)) l = Yield l' ->
       Forall (fun ka : string * arg => xarg true (snd ka)) l'.
     Proof.
@@ -444,10 +356,17 @@ Section Reset2.
     (* a list / dict attribute whose items the class advances *)
     Lemma listfield_closed l x : Forall (xarg true) l -> reset_field (reset g) (AL l) = Yield x ->
       exists l', x = AL l' /\ Forall (xarg true) l'.
-    Proof. intros Hl E. cbn in E. apply omap_yield_inv in E as [l' [El ->]]. eexists; split; [reflexivity|]. eapply items_closed; eauto. Qed.
+    Proof. intros Hl E. cbn in E. apply omap_yield_inv in E as [l' [El ->]]. eexists; split; [reflexivity|]. eapply values_closed; eauto. Qed.
     Lemma dictfield_closed kv x : Forall (fun ka => xarg true (snd ka)) kv -> reset_field (reset g) (AD kv) = Yield x ->
       exists kv', x = AD kv' /\ Forall (fun ka : string * arg => xarg true (snd ka)) kv'.
-    Proof. intros Hl E. cbn in E. apply omap_yield_inv in E as [l' [El ->]]. eexists; split; [reflexivity|]. eapply kwitems_closed; eauto. Qed.
+    Proof. intros Hl E. cbn in E. apply omap_yield_inv in E as [l' [El ->]]. eexists; split; [reflexivity|]. eapply kwvalues_closed; eauto. Qed.
+
+    Lemma field_closed a x : xarg true a -> reset_field (reset g) a = Yield x -> xarg true x.
+    Proof.
+      intros Ha E. destruct a as [v|p|lt|ll|kv]; try (eapply value_closed; [exact Ha|exact E]).
+      - inversion Ha as [| | |? ? Hl|]; subst. destruct (listfield_closed _ _ (Hl eq_refl) E) as [l' [-> Hl']]. apply XA_list. intros _. exact Hl'.
+      - inversion Ha as [| | | |? ? Hk]; subst. destruct (dictfield_closed _ _ (Hk eq_refl) E) as [kv' [-> Hk']]. apply XA_dict. intros _. exact Hk'.
+    Qed.
   End FieldClosed.
 
   Ltac xclosed_case IHs IHv IHn :=
@@ -482,13 +401,13 @@ Section Reset2.
     - destruct (IHf f (Nat.lt_succ_diag_r f)) as [IHs [IHv [IHn IHr]]].
       assert (ARS : forall a a', xarg true a -> areset_strict f a = Yield a' -> xarg true a').
       { intros a a' Ha E. destruct f as [|g]; [discriminate|]. cbn in E. destruct a; try discriminate.
-        apply omap_yield_inv in E as [q [Eq ->]]. apply XA_pat. inversion Ha as [? ? Fa _|? ? Hp]; subst; [inversion Fa|].
+        apply omap_yield_inv in E as [q [Eq ->]]. apply XA_pat. pose proof (xarg_AP _ _ Ha) as Hp.
         eapply (proj2 (proj2 (proj2 (IHf g ltac:(lia))))); eauto. }
       assert (AALL : forall m a o a', xarg true a -> aall f m a = (o, a') -> xarg true a').
       { intros m a o a' Ha E. destruct f as [|g]; [inversion E; subst; exact Ha|].
         destruct (IHf g ltac:(lia)) as [Gs [_ [_ Gr]]].
         destruct a; try (inversion E; subst; exact Ha).
-        inversion Ha as [? ? Fa _|? ? Hp]; subst; [inversion Fa|].
+        pose proof (xarg_AP _ _ Ha) as Hp.
         rewrite aall_pattern in E. pose proof (take_inv (xpat true) (Yield []) (step g) (Gs true) m p Hp) as K.
         destruct (take (Yield []) (step g) m p) as [ovs p']. cbn [snd] in K.
         destruct ovs; try (inversion E; subst; apply XA_pat; exact K).
@@ -534,13 +453,12 @@ Section Reset2.
           rewrite step_preset_eq. pose proof (IHn s t H0) as Kt. destruct (anext f t) as [ot t']. cbn [snd] in Kt.
           assert (Polled : forall q, xpat true q -> xpat s (snd (let '(o, pattern2) := anext f (AP q) in (o, PReset pattern2 t')))).
           { intros q Hq. pose proof (IHn true (AP q) (XA_pat _ _ Hq)) as K. destruct (anext_AP f q) as [o [q2 E]]. rewrite E in K |- *.
-            cbn [snd] in *. inversion K as [? ? Fa _|? ? Hq2]; subst; [inversion Fa|]. apply XP_reset; assumption. }
+            cbn [snd] in *. apply XP_reset; [apply (xarg_AP _ _ K)|assumption]. }
           destruct ot as [vt| | | |]; try (cbn [snd]; apply XP_reset; assumption).
           destruct (if is_none vt then Yield false else cmp OGt vt (VInt 0)) as [[|]| | | |]; try (cbn [snd]; apply XP_reset; assumption); cbv zeta.
           -- destruct (areset_strict f (AP p0)) as [a1| | | |] eqn:R; try (cbn [snd]; apply XP_reset; assumption).
-             pose proof (ARS _ _ (XA_pat _ _ H) R) as K1. inversion K1 as [? ? Fa _|? q Hq]; subst.
-             ++ exfalso. destruct f; [discriminate|]. cbn in R. apply omap_yield_inv in R as [q [_ ->]]. inversion Fa.
-             ++ apply Polled. exact Hq.
+             pose proof (ARS _ _ (XA_pat _ _ H) R) as K1.
+             destruct f as [|g]; [discriminate R|]. cbn in R. apply omap_yield_inv in R as [q [_ ->]]. apply Polled. apply (xarg_AP _ _ K1).
           -- apply Polled. exact H.
         * (* PConcatenate *)
           rewrite step_concat_eq. destruct (py_index l pos) as [a|] eqn:Ei; [|exact Hp].
@@ -564,7 +482,8 @@ Section Reset2.
           destruct (plain_items ll) eqn:Pl; [rewrite (step_indexof_list_eq _ _ _ _ _ _ Pl)|rewrite step_indexof_list_none by exact Pl];
             xclosed_case IHs IHv IHn.
         * (* PArrayIndex over a literal list *)
-          rewrite step_arrayindex_list_eq. pose proof (IHv s b H0) as Kb. destruct (value f b) as [oi b']. cbn [snd] in Kb.
+          rewrite step_arrayindex_unfold. destruct e; [exact Hp|]. rewrite arrayindex_body_list_eq.
+          pose proof (IHv s b H0) as Kb. destruct (value f b) as [oi b']. cbn [snd] in Kb.
           destruct oi as [vi| | | |]; try (cbn [snd]; apply XP_arrayindex_list; assumption).
           destruct vi; try (cbn [snd]; apply XP_arrayindex_list; assumption).
           all: match goal with |- context [py_int ?v] => destruct (py_int v) as [[| |i| | | | |]| | | |] end;
@@ -573,12 +492,15 @@ Section Reset2.
           all: pose proof (IHv s x (py_index_Forall _ _ _ _ H Ei)) as Kx; destruct (value f x) as [o x']; cbn [snd] in Kx |- *.
           all: apply XP_arrayindex_list; [apply Forall_update_nth; assumption|assumption].
         * (* PArrayIndex *)
-          destruct (step_arrayindex_gen f a b H) as [g ->].
+          rewrite step_arrayindex_unfold. destruct e; [exact Hp|]. rewrite arrayindex_body_gen by exact H.
           pose proof (IHv s a H0) as Ka. destruct (value f a) as [oa a'] eqn:Ea. cbn [snd] in Ka.
           assert (Na : forall l, a' <> AL l).
-          { intros l ->. inversion H0 as [? ? Fa _|? p0 Hp0]; subst.
-            - pose proof (frozen_value f a Fa) as E. rewrite Ea in E. cbn in E. subst a. eapply H; reflexivity.
-            - destruct f; [cbn in Ea; inversion Ea|rewrite value_pattern in Ea; destruct (step f p0); inversion Ea]. }
+          { intros l ->. destruct a as [v|p0|lt|ll|kv].
+            - pose proof (value_AV f v) as E. rewrite Ea in E. discriminate E.
+            - destruct f; [cbn in Ea; inversion Ea|rewrite value_pattern in Ea; destruct (step f p0); inversion Ea].
+            - destruct f; [cbn in Ea; inversion Ea|]. pose proof (value_AT f lt) as E. rewrite Ea in E. discriminate E.
+            - eapply H; reflexivity.
+            - pose proof (value_AD f kv) as E. rewrite Ea in E. discriminate E. }
           destruct oa; try (cbn [snd]; apply XP_arrayindex; assumption).
           pose proof (IHv s b H1) as Kb. destruct (value f b) as [ob b']. cbn [snd] in Kb |- *. apply XP_arrayindex; assumption.
         * (* PDict *)
@@ -588,12 +510,14 @@ Section Reset2.
           destruct a as [v|p0|lt|ll|kv].
           all: try (rewrite step_dictkey_gen by discriminate; xclosed_case IHs IHv IHn).
           rewrite step_dictkey_dict_eq. xclosed_case IHs IHv IHn.
-      + intros s a Ha. inversion Ha as [? ? Fa Ra|? p Hp]; subst.
-        * rewrite frozen_value by exact Fa. exact Ha.
-        * rewrite value_pattern. pose proof (IHs s p Hp) as K. destruct (step f p). apply XA_pat. exact K.
-      + intros s a Ha. inversion Ha as [? ? Fa Ra|? p Hp]; subst.
-        * rewrite frozen_anext by exact Fa. exact Ha.
-        * rewrite anext_pattern. pose proof (IHs s p Hp) as K. destruct (step f p). apply XA_pat. exact K.
+      + intros s a Ha. destruct a as [v|p|lt|ll|kv].
+        * rewrite value_AV. exact Ha.
+        * rewrite value_pattern. pose proof (IHs s p (xarg_AP _ _ Ha)) as K. destruct (step f p). apply XA_pat. exact K.
+        * rewrite value_AT. apply XA_tup. inversion Ha; subst. apply values_of_Forall; [exact (IHv s)|assumption].
+        * rewrite value_AL. exact Ha.
+        * rewrite value_AD. exact Ha.
+      + intros s a Ha. destruct a as [v|p|lt|ll|kv]; try (rewrite anext_nonpat by discriminate; exact Ha).
+        rewrite anext_pattern. pose proof (IHs s p (xarg_AP _ _ Ha)) as K. destruct (step f p). apply XA_pat. exact K.
       + (* reset() stays in the strict fragment *)
         intros p q Hp R. pose proof (field_closed f IHr) as FC.
         inversion Hp; subst.
@@ -626,7 +550,7 @@ Section Reset2.
           -- destruct v; try discriminate R; inversion R; subst; apply XP_reverse; intros _; exact E.
           -- destruct (aall f LMAX (AP p1)) as [olen i2] eqn:EA. pose proof (AALL _ _ _ _ E EA) as K2. cbv zeta in R.
              apply obind_yield_inv in R as [u [_ R]]. destruct i2 as [|p2| | |]; try discriminate R.
-             inversion K2 as [? ? Fa _|? ? Hp2]; subst; [inversion Fa|].
+             pose proof (xarg_AP _ _ K2) as Hp2.
              pose proof (take_inv (xpat true) OutOfFuel (step f) (IHs true) f p2 Hp2) as K3.
              destruct (take OutOfFuel (step f) f p2) as [ovs p3]. cbn [snd] in K3.
              apply obind_yield_inv in R as [vs [_ R]]. inversion R; subst. apply XP_reverse. intros _. apply XA_pat. exact K3.
@@ -648,9 +572,11 @@ Section Reset2.
           destruct (listfield_closed f IHr _ _ ltac:(eassumption) E) as [l' [-> Hl']]. inversion R; subst. apply XP_concat; assumption.
         * (* PMap *)
           rewrite reset_map_eq in R. rpeel R FC.
-          apply obind_yield_inv in R as [kw1 [E1 R]]. apply obind_yield_inv in R as [args' [E2 R]]. apply obind_yield_inv in R as [kw2 [E3 R]].
-          inversion R; subst. apply XP_map; [assumption|eapply items_closed; eauto|].
-          eapply kwitems_closed; [exact IHr| |exact E3]. eapply kwitems_closed; eauto.
+          apply obind_yield_inv in R as [args1 [E1 R]]. apply obind_yield_inv in R as [kw1 [E2 R]].
+          apply obind_yield_inv in R as [args2 [E3 R]]. apply obind_yield_inv in R as [kw2 [E4 R]].
+          inversion R; subst. apply XP_map; [assumption| |].
+          -- eapply items_closed; [exact IHr| |exact E3]. eapply values_closed; eauto.
+          -- eapply kwitems_closed; [exact IHr| |exact E4]. eapply kwvalues_closed; eauto.
         * rclosed R reset_indexof_eq FC.
         * (* PArrayIndex over a literal list *)
           rewrite reset_arrayindex_eq in R. apply obind_yield_inv in R as [x [E R]].
@@ -658,9 +584,12 @@ Section Reset2.
         * (* PArrayIndex *)
           rewrite reset_arrayindex_eq in R. apply obind_yield_inv in R as [x [E R]].
           assert (Nx : forall l, x <> AL l).
-          { intros l ->. match goal with Ha : xarg true a |- _ => inversion Ha as [? ? Fa Ra|? p0 Hp0]; subst end.
-            - rewrite still_reset_field in E by auto. inversion E; subst. match goal with Hn : forall l, _ <> AL l |- _ => eapply Hn; reflexivity end.
-            - cbn in E. apply omap_yield_inv in E as [? [_ E]]. discriminate. }
+          { intros l ->. destruct a as [v|p0|lt|ll|kv]; cbn [reset_field] in E.
+            - inversion E.
+            - cbn in E. apply omap_yield_inv in E as [? [_ E]]. discriminate.
+            - rewrite reset_value_AT in E. apply omap_yield_inv in E as [? [_ E]]. discriminate.
+            - match goal with Hn : forall l, _ <> AL l |- _ => eapply Hn; reflexivity end.
+            - apply omap_yield_inv in E as [? [_ E]]. discriminate. }
           apply FC in E; [|assumption]. rpeel R FC. inversion R; subst. apply XP_arrayindex; assumption.
         * (* PDict *)
           rewrite reset_dict_eq in R. apply obind_yield_inv in R as [x [E R]].
@@ -685,51 +614,74 @@ Section Reset2.
     Hypothesis HA : forall s f' p, xpat s p -> reset f0 (snd (step f' p)) = reset f0 p.
     Hypothesis HB : forall f' p q, xpat true p -> reset f' p = Yield q -> reset f0 q = reset f0 p.
 
-    Lemma itemA_value s f' a : xarg s a -> reset_item (reset f0) (snd (value f' a)) = reset_item (reset f0) a.
+    (* reset_value (what Pattern.reset does to an attribute / item / dict value) after Pattern.value, after next() *)
+    Lemma itemA_value s : forall a f', xarg s a -> reset_value (reset f0) (snd (value f' a)) = reset_value (reset f0) a.
     Proof.
-      intro Ha. inversion Ha as [? ? Fa _|? p Hp]; subst; [rewrite frozen_value by exact Fa; reflexivity|].
-      destruct f' as [|f']; [reflexivity|]. rewrite value_pattern. pose proof (HA s f' p Hp) as E.
-      destruct (step f' p) as [o p']. cbn in *. rewrite E. reflexivity.
+      apply (arg_tuple_ind (fun a => forall f', xarg s a -> reset_value (reset f0) (snd (value f' a)) = reset_value (reset f0) a)).
+      - intros v f' _. rewrite value_AV. reflexivity.
+      - intros p f' Ha. destruct f' as [|f']; [reflexivity|]. rewrite value_pattern. pose proof (HA s f' p (xarg_AP _ _ Ha)) as E.
+        destruct (step f' p) as [o p']. cbn in *. rewrite E. reflexivity.
+      - intros l f' _. rewrite value_AL. reflexivity.
+      - intros kv f' _. rewrite value_AD. reflexivity.
+      - intros l IH f' Ha. destruct f' as [|f']; [reflexivity|]. rewrite value_AT, !reset_value_AT. f_equal. apply values_of_mapM.
+        inversion Ha as [| |? ? Hl| |]; subst. rewrite Forall_forall in *. intros a Hin. apply IH; [exact Hin|apply Hl; exact Hin].
     Qed.
-    Lemma itemA_anext s f' a : xarg s a -> reset_item (reset f0) (snd (anext f' a)) = reset_item (reset f0) a.
+    Lemma itemA_anext s f' a : xarg s a -> reset_value (reset f0) (snd (anext f' a)) = reset_value (reset f0) a.
     Proof.
-      intro Ha. inversion Ha as [? ? Fa _|? p Hp]; subst; [rewrite frozen_anext by exact Fa; reflexivity|].
-      destruct f' as [|f']; [reflexivity|]. rewrite anext_pattern. pose proof (HA s f' p Hp) as E.
+      intro Ha. destruct a as [v|p|lt|ll|kv]; try (rewrite anext_nonpat by discriminate; reflexivity).
+      destruct f' as [|f']; [reflexivity|]. rewrite anext_pattern. pose proof (HA s f' p (xarg_AP _ _ Ha)) as E.
       destruct (step f' p) as [o p']. cbn in *. rewrite E. reflexivity.
     Qed.
     Lemma fieldA_value s f' a : xarg s a -> reset_field (reset f0) (snd (value f' a)) = reset_field (reset f0) a.
     Proof.
-      intro Ha. inversion Ha as [? ? Fa _|? p Hp]; subst; [rewrite frozen_value by exact Fa; reflexivity|].
-      destruct f' as [|f']; [reflexivity|]. rewrite value_pattern. pose proof (HA s f' p Hp) as E.
-      destruct (step f' p) as [o p']. cbn in *. rewrite E. reflexivity.
+      intro Ha. destruct a as [v|p|lt|ll|kv].
+      - rewrite value_AV. reflexivity.
+      - pose proof (itemA_value s _ f' Ha) as E. destruct f' as [|f']; [reflexivity|]. rewrite value_pattern in *. destruct (step f' p). exact E.
+      - pose proof (itemA_value s _ f' Ha) as E. destruct f' as [|f']; [reflexivity|]. rewrite value_AT in *. exact E.
+      - rewrite value_AL. reflexivity.
+      - rewrite value_AD. reflexivity.
     Qed.
     Lemma fieldA_anext s f' a : xarg s a -> reset_field (reset f0) (snd (anext f' a)) = reset_field (reset f0) a.
     Proof.
-      intro Ha. inversion Ha as [? ? Fa _|? p Hp]; subst; [rewrite frozen_anext by exact Fa; reflexivity|].
-      destruct f' as [|f']; [reflexivity|]. rewrite anext_pattern. pose proof (HA s f' p Hp) as E.
-      destruct (step f' p) as [o p']. cbn in *. rewrite E. reflexivity.
+      intro Ha. destruct a as [v|p|lt|ll|kv]; try (rewrite anext_nonpat by discriminate; reflexivity).
+      pose proof (itemA_anext s f' _ Ha) as E. destruct f' as [|f']; [reflexivity|]. rewrite anext_pattern in *. destruct (step f' p). exact E.
     Qed.
 
-    Lemma itemB f' a x : xarg true a -> reset_item (reset f') a = Yield x -> reset_item (reset f0) x = reset_item (reset f0) a.
+    (* ... and after a reset() *)
+    Lemma itemB f' : forall a x, xarg true a -> reset_value (reset f') a = Yield x -> reset_value (reset f0) x = reset_value (reset f0) a.
     Proof.
-      intros Ha E. inversion Ha as [? ? Fa _|? p Hp]; subst.
-      - rewrite frozen_reset_item in E by exact Fa. inversion E; subst. reflexivity.
-      - cbn in E. apply omap_yield_inv in E as [q [Eq ->]]. cbn. rewrite (HB _ _ _ Hp Eq). reflexivity.
+      apply (arg_tuple_ind (fun a => forall x, xarg true a -> reset_value (reset f') a = Yield x -> reset_value (reset f0) x = reset_value (reset f0) a)).
+      - intros v x _ E. inversion E; reflexivity.
+      - intros p x Ha E. cbn in E. apply omap_yield_inv in E as [q [Eq ->]]. cbn. rewrite (HB _ _ _ (xarg_AP _ _ Ha) Eq). reflexivity.
+      - intros l x _ E. inversion E; reflexivity.
+      - intros kv x _ E. inversion E; reflexivity.
+      - intros l IH x Ha E. rewrite reset_value_AT in E. apply omap_yield_inv in E as [l' [El ->]]. rewrite !reset_value_AT. f_equal.
+        apply (mapM_B (reset_value (reset f')) (reset_value (reset f0)) l l'); [|exact El].
+        inversion Ha as [| |? ? Hl| |]; subst. rewrite Forall_forall in *. intros a Hin b. apply IH; [exact Hin|apply Hl; exact Hin].
     Qed.
-    Lemma fieldB f' a x : xarg true a -> reset_field (reset f') a = Yield x -> reset_field (reset f0) x = reset_field (reset f0) a.
+    (* the one-level loop of PMap.reset, followed by a full reset *)
+    Lemma pitemB f' a x : xarg true a -> reset_item (reset f') a = Yield x -> reset_value (reset f0) x = reset_value (reset f0) a.
     Proof.
-      intros Ha E. inversion Ha as [? ? Fa Ra|? p Hp]; subst.
-      - rewrite still_reset_field in E by auto. inversion E; subst. reflexivity.
-      - cbn in E. apply omap_yield_inv in E as [q [Eq ->]]. cbn. rewrite (HB _ _ _ Hp Eq). reflexivity.
+      intros Ha E. destruct a; try (inversion E; reflexivity).
+      cbn in E. apply omap_yield_inv in E as [q [Eq ->]]. cbn. rewrite (HB _ _ _ (xarg_AP _ _ Ha) Eq). reflexivity.
     Qed.
-    Lemma listB f' l l' : Forall (xarg true) l -> mapM (reset_item (reset f')) l = Yield l' ->
-      mapM (reset_item (reset f0)) l' = mapM (reset_item (reset f0)) l.
+    Lemma listB f' l l' : Forall (xarg true) l -> mapM (reset_value (reset f')) l = Yield l' ->
+      mapM (reset_value (reset f0)) l' = mapM (reset_value (reset f0)) l.
     Proof. intros Hl. apply mapM_B. eapply Forall_impl; [|exact Hl]. intros a Ha b. apply itemB. exact Ha. Qed.
-    Lemma kwlistB f' l l' : Forall (fun ka => xarg true (snd ka)) l -> kwmapM (reset_item (reset f')) l = Yield l' ->
-      kwmapM (reset_item (reset f0)) l' = kwmapM (reset_item (reset f0)) l.
+    Lemma plistB f' l l' : Forall (xarg true) l -> mapM (reset_item (reset f')) l = Yield l' ->
+      mapM (reset_value (reset f0)) l' = mapM (reset_value (reset f0)) l.
+    Proof. intros Hl. apply mapM_B. eapply Forall_impl; [|exact Hl]. intros a Ha b. apply pitemB. exact Ha. Qed.
+    Lemma kwlistB f' l l' : Forall (fun ka => xarg true (snd ka)) l -> kwmapM (reset_value (reset f')) l = Yield l' ->
+      kwmapM (reset_value (reset f0)) l' = kwmapM (reset_value (reset f0)) l.
     Proof.
       intros Hl. unfold kwmapM. apply mapM_B. eapply Forall_impl; [|exact Hl]. intros [k a] Ha [k' b] E. cbn [fst snd] in *.
       apply omap_yield_inv in E as [x [Ex E]]. inversion E; subst. rewrite (itemB _ _ _ Ha Ex). reflexivity.
+    Qed.
+    Lemma kwplistB f' l l' : Forall (fun ka => xarg true (snd ka)) l -> kwmapM (reset_item (reset f')) l = Yield l' ->
+      kwmapM (reset_value (reset f0)) l' = kwmapM (reset_value (reset f0)) l.
+    Proof.
+      intros Hl. unfold kwmapM. apply mapM_B. eapply Forall_impl; [|exact Hl]. intros [k a] Ha [k' b] E. cbn [fst snd] in *.
+      apply omap_yield_inv in E as [x [Ex E]]. inversion E; subst. rewrite (pitemB _ _ _ Ha Ex). reflexivity.
     Qed.
     Lemma listfieldB f' l x : Forall (xarg true) l -> reset_field (reset f') (AL l) = Yield x ->
       reset_field (reset f0) x = reset_field (reset f0) (AL l).
@@ -737,6 +689,15 @@ Section Reset2.
     Lemma dictfieldB f' kv x : Forall (fun ka => xarg true (snd ka)) kv -> reset_field (reset f') (AD kv) = Yield x ->
       reset_field (reset f0) x = reset_field (reset f0) (AD kv).
     Proof. intros Hl E. cbn in E. apply omap_yield_inv in E as [l' [El ->]]. cbn. rewrite (kwlistB _ _ _ Hl El). reflexivity. Qed.
+    Lemma fieldB f' a x : xarg true a -> reset_field (reset f') a = Yield x -> reset_field (reset f0) x = reset_field (reset f0) a.
+    Proof.
+      intros Ha E. destruct a as [v|p|lt|ll|kv].
+      - inversion E; reflexivity.
+      - pose proof E as E'. cbn in E'. apply omap_yield_inv in E' as [q [_ ->]]. exact (itemB f' _ _ Ha E).
+      - pose proof E as E'. cbn [reset_field] in E'. rewrite reset_value_AT in E'. apply omap_yield_inv in E' as [l' [_ ->]]. exact (itemB f' _ _ Ha E).
+      - inversion Ha as [| | |? ? Hl|]; subst. exact (listfieldB f' _ _ (Hl eq_refl) E).
+      - inversion Ha as [| | | |? ? Hk]; subst. exact (dictfieldB f' _ _ (Hk eq_refl) E).
+    Qed.
 
     Lemma takeA s ex g m : forall p, xpat s p -> reset f0 (snd (take ex (step g) m p)) = reset f0 p.
     Proof.
@@ -747,14 +708,14 @@ Section Reset2.
     Lemma aresetB g a a' : xarg true a -> areset_strict g a = Yield a' -> reset_field (reset f0) a' = reset_field (reset f0) a.
     Proof.
       intros Ha E. destruct g as [|g]; [discriminate|]. cbn in E. destruct a; try discriminate.
-      inversion Ha as [? ? Fa _|? ? Hp]; subst; [inversion Fa|].
+      pose proof (xarg_AP _ _ Ha) as Hp.
       apply omap_yield_inv in E as [q [Eq ->]]. cbn. rewrite (HB _ _ _ Hp Eq). reflexivity.
     Qed.
 
     Lemma aallAB g m a o a' : xarg true a -> aall g m a = (o, a') -> reset_field (reset f0) a' = reset_field (reset f0) a.
     Proof.
       intros Ha E. destruct g as [|g]; [inversion E; reflexivity|]. destruct a; try (inversion E; reflexivity).
-      inversion Ha as [? ? Fa _|? ? Hp]; subst; [inversion Fa|].
+      pose proof (xarg_AP _ _ Ha) as Hp.
       rewrite aall_pattern in E. pose proof (takeA true (Yield []) g m p Hp) as T.
       pose proof (take_inv (xpat true) (Yield []) (step g) (fun q => xpat_step_closed true g q) m p Hp) as C.
       destruct (take (Yield []) (step g) m p) as [ovs p']. cbn [snd] in T, C.
@@ -796,7 +757,7 @@ Section Reset2.
     Qed.
 
     Lemma list_updateA (l : list arg) i a a' :
-      py_index l i = Some a -> reset_item (reset f0) a' = reset_item (reset f0) a ->
+      py_index l i = Some a -> reset_value (reset f0) a' = reset_value (reset f0) a ->
       reset_field (reset f0) (AL (update_nth (py_index_pos l i) a' l)) = reset_field (reset f0) (AL l).
     Proof. intros Ei E. cbn. rewrite (mapM_update_nth _ _ _ _ _ (py_index_nth _ _ _ Ei) E). reflexivity. Qed.
 
@@ -865,7 +826,7 @@ Section Reset2.
         destruct orep; try (cbn [snd]; rewrite !reset_seq_eq, A; reflexivity).
         cbv zeta. destruct (if zlen l =? 0 then Yield true else cmp OGe (VInt rc) a) as [[|]| | | |]; try (cbn [snd]; rewrite !reset_seq_eq, A; reflexivity).
         destruct (py_index l pos) as [x|] eqn:Ei; [|cbn [snd]; rewrite !reset_seq_eq, A; reflexivity].
-        pose proof (itemA_value f0 HA s f' x (py_index_Forall _ _ _ _ H Ei)) as Ax. destruct (value f' x) as [o x']. cbn [snd] in Ax.
+        pose proof (itemA_value f0 HA s x f' (py_index_Forall _ _ _ _ H Ei)) as Ax. destruct (value f' x) as [o x']. cbn [snd] in Ax.
         pose proof (list_updateA f0 l pos x x' Ei Ax) as U.
         destruct o; try (cbn [snd]; rewrite !reset_seq_eq, U, A; reflexivity).
         destruct (pos + 1 >=? zlen l); cbn [snd]; rewrite !reset_seq_eq, U, A; reflexivity.
@@ -901,7 +862,7 @@ Section Reset2.
         assert (Polled : forall q, xpat true q -> reset f0 q = reset f0 p0 ->
                   reset (S f0) (snd (let '(o, pattern2) := anext f' (AP q) in (o, PReset pattern2 t'))) = reset (S f0) (PReset (AP p0) t)).
         { intros q Hq Eq. pose proof (fieldA_anext f0 HA true f' (AP q) (XA_pat _ _ Hq)) as Aq.
-          destruct (anext f' (AP q)) as [o a2]. cbn [snd] in *. rewrite !reset_preset_eq, Aq, At. cbn [reset_field]. rewrite Eq. reflexivity. }
+          destruct (anext f' (AP q)) as [o a2]. cbn [snd] in *. rewrite !reset_preset_eq, Aq, At. cbn [reset_field reset_value]. rewrite Eq. reflexivity. }
         destruct ot as [vt| | | |]; try apply Same.
         destruct (if is_none vt then Yield false else cmp OGt vt (VInt 0)) as [[|]| | | |]; try apply Same; cbv zeta.
         * destruct (areset_strict f' (AP p0)) as [a1| | | |] eqn:R; try apply Same.
@@ -911,9 +872,9 @@ Section Reset2.
       + eapply concatA; eassumption.
       + (* PMap *)
         rewrite step_map_eq.
-        assert (Aa : mapM (reset_item (reset f0)) (snd (values_of (value f') args)) = mapM (reset_item (reset f0)) args).
+        assert (Aa : mapM (reset_value (reset f0)) (snd (values_of (value f') args)) = mapM (reset_value (reset f0)) args).
         { apply values_of_mapM. eapply Forall_impl; [|exact H0]. intros a Ha. eapply itemA_value; eauto. }
-        assert (Ak : kwmapM (reset_item (reset f0)) (snd (kwvalues_of (value f') kwargs)) = kwmapM (reset_item (reset f0)) kwargs).
+        assert (Ak : kwmapM (reset_value (reset f0)) (snd (kwvalues_of (value f') kwargs)) = kwmapM (reset_value (reset f0)) kwargs).
         { apply kwvalues_of_mapM. eapply Forall_impl; [|exact H1]. intros [k a] Ha. cbn [snd] in *. eapply itemA_value; eauto. }
         destruct (values_of (value f') args) as [oa args']. cbn [snd] in Aa.
         destruct oa; try (cbn [snd]; rewrite !reset_map_eq, Aa; reflexivity).
@@ -927,25 +888,26 @@ Section Reset2.
         destruct (plain_items ll) eqn:Pl; [rewrite (step_indexof_list_eq _ _ _ _ _ _ Pl)|rewrite step_indexof_list_none by exact Pl];
           a_case f0 HA reset_indexof_eq.
       + (* PArrayIndex over a literal list *)
-        rewrite step_arrayindex_list_eq. pose proof (fieldA_value f0 HA s f' b H0) as Ab. destruct (value f' b) as [oi b']. cbn [snd] in Ab.
+        rewrite step_arrayindex_unfold. destruct e; [reflexivity|]. rewrite arrayindex_body_list_eq.
+        pose proof (fieldA_value f0 HA s f' b H0) as Ab. destruct (value f' b) as [oi b']. cbn [snd] in Ab.
         destruct oi as [vi| | | |]; try (cbn [snd]; rewrite !reset_arrayindex_eq, Ab; reflexivity).
         destruct vi; try (cbn [snd]; rewrite !reset_arrayindex_eq, Ab; reflexivity).
         all: match goal with |- context [py_int ?v] => destruct (py_int v) as [[| |i| | | | |]| | | |] end;
           try (cbn [snd]; rewrite !reset_arrayindex_eq, Ab; reflexivity).
         all: destruct (py_index l i) as [x|] eqn:Ei; [|cbn [snd]; rewrite !reset_arrayindex_eq, Ab; reflexivity].
-        all: pose proof (itemA_value f0 HA s f' x (py_index_Forall _ _ _ _ H Ei)) as Ax; destruct (value f' x) as [o x']; cbn [snd] in Ax |- *.
+        all: pose proof (itemA_value f0 HA s x f' (py_index_Forall _ _ _ _ H Ei)) as Ax; destruct (value f' x) as [o x']; cbn [snd] in Ax |- *.
         all: rewrite !reset_arrayindex_eq, (list_updateA f0 l i x x' Ei Ax), Ab; reflexivity.
       + (* PArrayIndex *)
-        destruct (step_arrayindex_gen f' a b H) as [g ->].
+        rewrite step_arrayindex_unfold. destruct e; [reflexivity|]. rewrite arrayindex_body_gen by exact H.
         pose proof (fieldA_value f0 HA s f' a H0) as Aa. destruct (value f' a) as [oa a']. cbn [snd] in Aa.
         destruct oa; try (cbn [snd]; rewrite !reset_arrayindex_eq, Aa; reflexivity).
         pose proof (fieldA_value f0 HA s f' b H1) as Ab. destruct (value f' b) as [ob b']. cbn [snd] in Ab |- *.
         rewrite !reset_arrayindex_eq, Aa, Ab. reflexivity.
       + (* PDict *)
         rewrite step_dict_eq.
-        assert (Ak : kwmapM (reset_item (reset f0)) (snd (kwvalues_of (value f') kv)) = kwmapM (reset_item (reset f0)) kv).
+        assert (Ak : kwmapM (reset_value (reset f0)) (snd (kwvalues_of (value f') kv)) = kwmapM (reset_value (reset f0)) kv).
         { apply kwvalues_of_mapM. eapply Forall_impl; [|exact H]. intros [k a] Ha. cbn [snd] in *. eapply itemA_value; eauto. }
-        destruct (kwvalues_of (value f') kv) as [o kv']. cbn [snd] in *. rewrite !reset_dict_eq. cbn [reset_field]. rewrite Ak. reflexivity.
+        destruct (kwvalues_of (value f') kv) as [o kv']. cbn [snd] in *. rewrite !reset_dict_eq. cbn [reset_field reset_value]. rewrite Ak. reflexivity.
       + (* PDictKey *)
         destruct a as [v|p0|lt|ll|kv].
         all: try (rewrite step_dictkey_gen by discriminate; a_case f0 HA reset_dictkey_eq).
@@ -979,7 +941,7 @@ Section Reset2.
         apply obind_yield_inv in R as [p2 [E2 R]].
         assert (K2 : xarg true p2).
         { destruct f' as [|g]; [discriminate|]. cbn in E2. destruct p1; try discriminate. apply omap_yield_inv in E2 as [q2 [Eq2 ->]].
-          inversion K1 as [? ? Fa _|? ? Hp1]; subst; [inversion Fa|]. apply XA_pat. eapply xpat_reset_closed; eauto. }
+          pose proof (xarg_AP _ _ K1) as Hp1. apply XA_pat. eapply xpat_reset_closed; eauto. }
         apply (aresetB f0 HB) in E2; [|assumption].
         destruct (aall f' LMAX p2) as [ovs p3] eqn:EA. apply (aallAB f0 HA HB) in EA; [|assumption].
         apply obind_yield_inv in R as [vs [_ R]]. inversion R; subst.
@@ -996,19 +958,19 @@ Section Reset2.
           assert (K2 : xarg true i2).
           { pose proof (xpat_closed f') as [_ [_ [_ _]]]. clear - EA K1 binop LMAX.
             destruct f' as [|g]; [inversion EA; subst; exact K1|].
-            inversion K1 as [? ? Fa _|? ? Hp1]; subst; [inversion Fa|].
+            pose proof (xarg_AP _ _ K1) as Hp1.
             rewrite aall_pattern in EA. pose proof (take_inv (xpat true) (Yield []) (step g) (fun q => xpat_step_closed true g q) LMAX p1 Hp1) as C.
             destruct (take (Yield []) (step g) LMAX p1) as [ovs p']. cbn [snd] in C.
             destruct ovs; try (inversion EA; subst; apply XA_pat; exact C).
             destruct (reset g p') as [p''| | | |] eqn:Rr; inversion EA; subst; apply XA_pat; try exact C. eapply xpat_reset_closed; eauto. }
           apply (aallAB f0 HA HB) in EA; [|assumption]. cbv zeta in R.
           apply obind_yield_inv in R as [u [_ R]]. destruct i2 as [|p2| | |]; try discriminate R.
-          inversion K2 as [? ? Fa _|? ? Hp2]; subst; [inversion Fa|].
+          pose proof (xarg_AP _ _ K2) as Hp2.
           pose proof (takeA f0 HA true OutOfFuel f' f' p2 Hp2) as T.
           destruct (take OutOfFuel (step f') f' p2) as [ovs p3]. cbn [snd] in T.
           apply obind_yield_inv in R as [vs [_ R]]. inversion R; subst.
           rewrite (reset_reverse_any binop LMAX (S f0) (AP p3) (rev vs) values), !reset_reverse_eq.
-          cbn [reset_field] in *. rewrite T. rewrite EA in *. rewrite E1. reflexivity.
+          cbn [reset_field reset_value] in *. rewrite T. rewrite EA in *. rewrite E1. reflexivity.
       + (* PChanged *)
         rewrite reset_changed_eq in R. apply obind_yield_inv in R as [s1 [E1 R]].
         pose proof (xarg_field_closed _ _ _ ltac:(eassumption) E1) as K1. apply FB in E1; [|assumption].
@@ -1031,11 +993,14 @@ Section Reset2.
         apply (listfieldB f0 HB f') in E; [|assumption]. inversion R; subst. rewrite !reset_concat_eq, E. reflexivity.
       + (* PMap *)
         rewrite reset_map_eq in R. bpeel R FB.
-        apply obind_yield_inv in R as [kw1 [E1 R]]. apply obind_yield_inv in R as [args' [E2 R]]. apply obind_yield_inv in R as [kw2 [E3 R]].
+        apply obind_yield_inv in R as [args1 [E1 R]]. apply obind_yield_inv in R as [kw1 [E2 R]].
+        apply obind_yield_inv in R as [args2 [E3 R]]. apply obind_yield_inv in R as [kw2 [E4 R]].
         inversion R; subst.
-        pose proof (kwitems_closed f' (xpat_reset_closed f') _ _ ltac:(eassumption) E1) as K1.
-        apply (kwlistB f0 HB f') in E3; [|assumption]. apply (kwlistB f0 HB f') in E1; [|assumption]. apply (listB f0 HB f') in E2; [|assumption].
-        rewrite !reset_map_eq, E, E3, E1, E2. reflexivity.
+        pose proof (values_closed f' (xpat_reset_closed f') _ _ ltac:(eassumption) E1) as K1.
+        pose proof (kwvalues_closed f' (xpat_reset_closed f') _ _ ltac:(eassumption) E2) as K2.
+        apply (plistB f0 HB f') in E3; [|assumption]. apply (kwplistB f0 HB f') in E4; [|assumption].
+        apply (listB f0 HB f') in E1; [|assumption]. apply (kwlistB f0 HB f') in E2; [|assumption].
+        rewrite !reset_map_eq, E, E3, E1, E4, E2. reflexivity.
       + b_case R reset_indexof_eq FB.
       + (* PArrayIndex over a literal list *)
         rewrite reset_arrayindex_eq in R. apply obind_yield_inv in R as [x [E R]].
